@@ -124,6 +124,8 @@ let job_tcheck (job : Sx.t) : string =
        let p = UAst.uprogram_of_parsed up (Jfront.bytes_of_string main) in
        let real = match Sx.try_field job "ast" with None -> None | Some f -> Some (Jprog.program (Stdlib.List.hd (Sx.args f))) in
        let fr = if InferSound.in_sound_fragment p then " (sound-fragment 1)" else " (sound-fragment 0)" in
+       let rec int_of_nat (k : Datatypes.nat) = match k with Datatypes.O -> 0 | Datatypes.S k' -> 1 + int_of_nat k' in
+       let fr = fr ^ (if InferFuel4.no_oracle p || int_of_nat (InferFuel5.ty_depth_bound p) <= 64 then " (fe-total 1)" else " (fe-total 0)") in
        (match Infer.check_program intern (nat_of_int 400) p, real with
         | Infer.COk m, Some r ->
           let pm = parts m and pr = parts r in
@@ -147,7 +149,7 @@ let job_tcheck (job : Sx.t) : string =
           end
         | Infer.COk _, None -> "(model-accepts)"
         | Infer.CErr c, Some _ -> Printf.sprintf "(model-rejects %s)" (n c)
-        | Infer.CErr c, None -> Printf.sprintf "(same-reject %s)" (n c)
+        | Infer.CErr c, None -> Printf.sprintf "(same-reject %s)%s" (n c) fr
         | Infer.COutside, _ -> "(outside)"
         | Infer.CNoFuel, _ -> "(nofuel)")
      | ParseExpr.PNoFuel -> "(nofuel)"
